@@ -697,6 +697,75 @@ theorem retain_history (ord : List Nat) (h3 : 3 ∉ ord) : ∀ (hist : List (Bod
     rw [retain_history ord h3 rest _ (wellHomed_congr h3 h1 hw) q hq]
     exact h1 q hq
 
+/-- what a body does depends only on the torch slots: two tables that agree off slot 3 give the same outcome, the same
+call log and tables that again agree off slot 3 -/
+theorem run_congr (ord : List Nat) (h3 : 3 ∉ ord) : ∀ (b : Body) (t t' : Table), (∀ q, q ≠ 3 → t q = t' q) → b.callsIn ord →
+    (∀ q, q ≠ 3 → (run ord t b).1 q = (run ord t' b).1 q) ∧ (run ord t b).2 = (run ord t' b).2 := by
+  intro b
+  induction b with
+  | ret => intro t t' h _; exact ⟨by simpa [run] using h, by simp [run]⟩
+  | raise => intro t t' h _; exact ⟨by simpa [run] using h, by simp [run]⟩
+  | call s k ih =>
+    intro t t' h hc
+    simp only [Body.callsIn] at hc
+    obtain ⟨i1, i2⟩ := ih t t' h hc.2
+    have hs : t s = t' s := h s (fun e => h3 (e ▸ hc.1))
+    refine ⟨by simpa [run] using i1, ?_⟩
+    simp only [run]
+    rw [hs]
+    have : (run ord t k).2 = (run ord t' k).2 := i2
+    rw [Prod.ext_iff] at this
+    simp [this.1, this.2]
+  | nest inner k ihi ihk =>
+    intro t t' h hc
+    simp only [Body.callsIn] at hc
+    have hcap := captured_congr ord h3 t t' h
+    have hp := patch_congr (captured t ord) t t' h
+    obtain ⟨j1, j2⟩ := ihi _ _ hp hc.1
+    simp only [run]
+    rw [← hcap]
+    cases hr : run ord (patch t (captured t ord)) inner with
+    | mk t1 ol =>
+      cases hr' : run ord (patch t' (captured t ord)) inner with
+      | mk t1' ol' =>
+        rw [hr, hr'] at j1 j2
+        simp only at j1 j2
+        subst j2
+        obtain ⟨o, l⟩ := ol
+        have hrest := restore_congr (captured t ord) t1 t1' j1
+        cases o with
+        | raised => exact ⟨by simpa using hrest, rfl⟩
+        | ok =>
+          simp only
+          obtain ⟨m1, m2⟩ := ihk _ _ hrest hc.2
+          refine ⟨m1, ?_⟩
+          rw [Prod.ext_iff] at m2
+          simp [m2.1, m2.2]
+
+/-- **A failing call is atomic.** A context that failed in any way (its body raised anywhere, or the patch loop itself
+raised) followed by a second context behaves exactly like the second context alone: same outcome, same call log, same
+torch slots afterwards. -/
+theorem retain_atomic (ord : List Nat) (h3 : 3 ∉ ord) (t : Table) (hw : WellHomed ord t) (b1 b2 : Body) (fa : Option Nat)
+    (hc : b2.callsIn ord) :
+    let t1 := (retain ord t b1 fa).1
+    (retain ord t1 b2 none).2 = (retain ord t b2 none).2 ∧ ∀ q, q ≠ 3 → (retain ord t1 b2 none).1 q = (retain ord t b2 none).1 q := by
+  intro t1
+  have h1 : ∀ q, q ≠ 3 → t1 q = t q := retain_restores ord h3 t hw b1 fa
+  have hcap := captured_congr ord h3 t1 t h1
+  have hp := patch_congr (captured t1 ord) t1 t h1
+  obtain ⟨r1, r2⟩ := run_congr ord h3 b2 _ _ hp hc
+  unfold retain
+  simp only
+  rw [← hcap]
+  cases hr : run ord (patch t1 (captured t1 ord)) b2 with
+  | mk u ol =>
+    cases hr' : run ord (patch t (captured t1 ord)) b2 with
+    | mk u' ol' =>
+      rw [hr, hr'] at r1 r2
+      simp only at r1 r2
+      subst r2
+      exact ⟨rfl, restore_congr _ u u' r1⟩
+
 example : let t0 : Table := fun q => Fn.orig q
     let r := retain [2, 0, 1] t0 (.call 0 (.nest (.call 1 .raise) .ret)) none
     ((List.range 3).map r.1 = (List.range 3).map t0) ∧ r.2.1 = Outcome.raised ∧ r.1 3 ≠ t0 3 ∧
